@@ -10,7 +10,7 @@ CONSTANTS
   PatchSizes = {2}
   Split <- MCSplit
   MaxTramps = 4
-  NVals <- MCNVals3
+  NVals <- MCNVals
   BoolSet = {"true"}
   GuardKinds = {"inj"}
   MatchVals = {TRUE, FALSE}
@@ -28,8 +28,8 @@ CONSTANTS
   InstallKinds = {"jump", "bool"}
   Faults = {"mmap", "mprotect"}
   MaxLives = 1
-  Gates = {"ok", "sig", "bool", "null"}
-  MaxInstalls = 1
+  Gates = {"ok", "sig", "bool"}
+  MaxInstalls = 2
 CONSTRAINT CanonDrop
 INVARIANT Emit
 CHECK_DEADLOCK FALSE
